@@ -135,6 +135,14 @@ type lookupTagAndType func(tag tag, t msgType) (message, error)
 //
 // The tag value NoTag will always be returned if err is non-nil.
 func recv(l ulog.Logger, r io.Reader, msize uint32, lookup lookupTagAndType) (tag, message, error) {
+	return recvFrame(l, r, func() uint32 { return msize }, lookup)
+}
+
+// recvFrame is recv with the size limit asked for only once the header of the
+// frame has arrived: the limit in force for a frame is the one negotiated
+// before that frame was sent, not the one that applied when the receiver
+// started waiting for it.
+func recvFrame(l ulog.Logger, r io.Reader, limit func() uint32, lookup lookupTagAndType) (tag, message, error) {
 	// Read a header.
 	var hdr [headerLength]byte
 
@@ -153,6 +161,7 @@ func recv(l ulog.Logger, r io.Reader, msize uint32, lookup lookupTagAndType) (ta
 		// See above: it's probably screwed.
 		return noTag, nil, ConnError{ErrNoValidMessage}
 	}
+	msize := limit()
 	if size > maximumLength || size > msize {
 		// The message is too big.
 		return noTag, nil, ConnError{&ErrMessageTooLarge{size, msize}}
